@@ -79,6 +79,116 @@ theorem mean_cell (sqrt : Rat → Rat) (a : Arr) (t : List Arr) (r : Arr) (i : N
   injection h with h; subst h
   exact meanArr_cell a t i hi
 
+/-! ### weighted sums -/
+
+/-- an input array times its weight -/
+def scaleArr (w : Num) (b : Arr) : Arr := b.mapCells (Cell.sc (· * w.val))
+
+/-- `weightedAcc` is the fold of additions over the scaled inputs -/
+theorem weightedAcc_eq_foldArr (w : Num) (wr : List Num) (a : Arr) (as : List Arr) (dt : DType) (hlen : wr.length = as.length) :
+    weightedAcc (w :: wr) (a :: as) dt = foldArr (Cell.bin (· + ·)) dt (scaleArr w a) (List.zipWith scaleArr wr as) := by
+  simp only [weightedAcc, foldArr]
+  have h0 : (⟨dt, a.shape, a.cells.map (Cell.sc (· * w.val))⟩ : Arr) = { scaleArr w a with dtype := dt } := by
+    simp [scaleArr, Arr.mapCells]
+  rw [h0]
+  generalize ({ scaleArr w a with dtype := dt } : Arr) = acc
+  induction as generalizing wr acc with
+  | nil => cases wr <;> rfl
+  | cons b as ih =>
+    cases wr with
+    | nil => simp at hlen
+    | cons w2 wr2 =>
+      simp only [List.zip_cons_cons, List.foldl_cons, List.zipWith_cons_cons]
+      exact ih wr2 (by simpa using hlen) _
+
+theorem scaleArr_getElem? (w : Num) (b : Arr) (i : Nat) : (scaleArr w b).cells[i]? = (b.cells[i]?).map (Cell.sc (· * w.val)) := by
+  simp [scaleArr, Arr.mapCells]
+
+/-- what `weightedAcc` leaves in cell `i`: missing iff some input is missing there, else the weighted sum of the column -/
+theorem weightedAcc_cell (w : Num) (wr : List Num) (a : Arr) (as : List Arr) (dt : DType) (i : Nat) (hlen : wr.length = as.length)
+    (hi : ∀ x ∈ a :: as, i < x.cells.length) :
+    ∃ c, (weightedAcc (w :: wr) (a :: as) dt).cells[i]? = some c ∧ c.mask = (column (a :: as) i).any (·.mask) ∧
+      (c.mask = false → c.val = (List.zipWith (fun (w : Num) (c : Cell) => c.val * w.val) (w :: wr) (column (a :: as) i)).sum) := by
+  rw [weightedAcc_eq_foldArr w wr a as dt hlen]
+  have hc := column_spec (a :: as) i hi
+  simp only [column, List.map_cons] at hc ⊢
+  cases hc with
+  | cons ha ht =>
+    -- the scaled column
+    have hsa : (scaleArr w a).cells[i]? = some (Cell.sc (· * w.val) (a.cells.getD i default)) := by rw [scaleArr_getElem?, ha]; rfl
+    have hst : List.Forall₂ (fun (b : Arr) d => b.cells[i]? = some d) (List.zipWith scaleArr wr as)
+        (List.zipWith (fun (w : Num) (c : Cell) => Cell.sc (· * w.val) c) wr (as.map fun x => x.cells.getD i default)) := by
+      clear hsa ha hi
+      induction as generalizing wr with
+      | nil => cases wr <;> exact .nil
+      | cons b as ih =>
+        cases wr with
+        | nil => simp at hlen
+        | cons w2 wr2 =>
+          cases ht with
+          | cons hb ht' =>
+            simp only [List.zipWith_cons_cons, List.map_cons]
+            exact .cons (by rw [scaleArr_getElem?, hb]; rfl) (ih wr2 (by simpa using hlen) ht')
+    have hcl : (as.map fun x => x.cells.getD i default).length = wr.length := by simp [hlen]
+    generalize a.cells.getD i default = c0 at *
+    generalize (as.map fun x => x.cells.getD i default) = cs at *
+    -- scaling keeps the masks and multiplies the values of present cells
+    have hmask : ∀ (wr : List Num) (cs : List Cell), cs.length = wr.length →
+        (List.zipWith (fun (w : Num) (c : Cell) => Cell.sc (· * w.val) c) wr cs).any (·.mask) = cs.any (·.mask) := by
+      intro wr
+      induction wr with
+      | nil => intro cs h; cases cs <;> simp at h ⊢
+      | cons w2 wr2 ih =>
+        intro cs h
+        cases cs with
+        | nil => simp at h
+        | cons d cs =>
+          rw [List.zipWith_cons_cons, List.any_cons, List.any_cons, ih cs (by simpa using h)]
+          rfl
+    have hval : ∀ (wr : List Num) (cs : List Cell), cs.length = wr.length → cs.any (·.mask) = false →
+        (List.zipWith (fun (w : Num) (c : Cell) => Cell.sc (· * w.val) c) wr cs).map (·.val) =
+          List.zipWith (fun (w : Num) (c : Cell) => c.val * w.val) wr cs := by
+      intro wr
+      induction wr with
+      | nil => intro cs h _; cases cs <;> simp at h ⊢
+      | cons w2 wr2 ih =>
+        intro cs h hm
+        cases cs with
+        | nil => simp at h
+        | cons d cs =>
+          rw [List.any_cons, Bool.or_eq_false_iff] at hm
+          rw [List.zipWith_cons_cons, List.map_cons, List.zipWith_cons_cons, ih cs (by simpa using h) hm.2]
+          congr 1
+          simp only [Cell.sc, hm.1, Bool.false_eq_true, if_false]
+    refine ⟨_, foldArr_column (· + ·) dt _ _ i _ _ hsa hst, ?_, ?_⟩
+    · rw [foldCells_mask, List.any_cons, List.any_cons, hmask wr cs hcl]
+      rfl
+    · intro hm
+      rw [foldCells_mask, List.any_cons, hmask wr cs hcl] at hm
+      have hm' : (c0 :: cs).any (·.mask) = false := by rw [List.any_cons]; exact hm
+      have hm0 : c0.mask = false := by
+        rw [Bool.or_eq_false_iff] at hm; exact hm.1
+      have hmc : cs.any (·.mask) = false := by
+        rw [Bool.or_eq_false_iff] at hm; exact hm.2
+      have hfm : (Cell.sc (· * w.val) c0 :: List.zipWith (fun (w : Num) (c : Cell) => Cell.sc (· * w.val) c) wr cs).any (·.mask) = false := by
+        rw [List.any_cons, hmask wr cs hcl]; exact hm
+      rw [foldCells_val _ _ _ hfm, List.map_cons, fold1_add, hval wr cs hcl hmc, List.zipWith_cons_cons]
+      congr 2
+      simp only [Cell.sc, hm0, Bool.false_eq_true, if_false]
+
+/-- **WeightedSum**: each result cell is missing iff some input cell is, and otherwise holds Σ weightⱼ · inputⱼ. -/
+theorem weightedSum_cell (sqrt : Rat → Rat) (w : Num) (wr : List Num) (a : Arr) (as : List Arr) (r : Arr) (i : Nat)
+    (h : exec sqrt (.weightedSum (w :: wr)) (a :: as) = .ok r) (hi : ∀ x ∈ a :: as, i < x.cells.length) :
+    ∃ c, r.cells[i]? = some c ∧ c.mask = (column (a :: as) i).any (·.mask) ∧
+      (c.mask = false → c.val = (List.zipWith (fun (w : Num) (c : Cell) => c.val * w.val) (w :: wr) (column (a :: as) i)).sum) := by
+  simp only [exec] at h
+  split at h
+  · cases h
+  · rename_i hlen
+    obtain ⟨_, _, h⟩ := bind_ok h
+    injection h with h; subst h
+    exact weightedAcc_cell w wr a as _ i (by simpa using hlen) hi
+
 /-- **Multiply**: product of the input cells. -/
 theorem multiply_cell (sqrt : Rat → Rat) (a : Arr) (t : List Arr) (r : Arr) (i : Nat)
     (h : exec sqrt .multiply (a :: t) = .ok r) (hi : ∀ x ∈ a :: t, i < x.cells.length) :
@@ -232,6 +342,128 @@ theorem mean_perm (sqrt : Rat → Rat) {xs xs' : List Arr} (h : xs.Perm xs') (n 
         show (foldArr _ _ a t).shape = (foldArr _ _ a' t').shape
         rw [naryFold_perm.C05_foldArr_shape, naryFold_perm.C05_foldArr_shape]
         exact hs a (List.mem_cons_self ..) a' (h.mem_iff.mpr (List.mem_cons_self ..))
+  · exact ExceptR.eMp _ _
+  · exact ExceptR.eMp _ _
+
+/-! ### the weighted pair: inputs and weights permuted alongside -/
+
+theorem weightedAcc_as_fold (ws : List Num) (xs : List Arr) (dt : DType) (hlen : ws.length = xs.length) (a0 : Arr) (t0 : List Arr)
+    (h : List.zipWith scaleArr ws xs = a0 :: t0) : weightedAcc ws xs dt = foldArr (Cell.bin (· + ·)) dt a0 t0 := by
+  cases ws with
+  | nil => simp at h
+  | cons w wr =>
+    cases xs with
+    | nil => simp at h
+    | cons a as =>
+      rw [weightedAcc_eq_foldArr w wr a as dt (by simpa using hlen)]
+      simp only [List.zipWith_cons_cons, List.cons.injEq] at h
+      rw [h.1, h.2]
+
+theorem zipWith_eq_map_zip (ws : List Num) (xs : List Arr) : List.zipWith scaleArr ws xs = (ws.zip xs).map fun p => scaleArr p.1 p.2 := by
+  induction ws generalizing xs with
+  | nil => simp
+  | cons w wr ih => cases xs with
+    | nil => simp
+    | cons a as => simp [ih]
+
+theorem numsAllInt_perm {ws ws' : List Num} (h : ws.Perm ws') : numsAllInt ws = numsAllInt ws' := by
+  unfold numsAllInt
+  induction h with
+  | nil => rfl
+  | cons x _ ih => simp [List.all_cons, ih]
+  | swap x y l => simp [List.all_cons, Bool.and_left_comm]
+  | trans _ _ ih1 ih2 => rw [ih1, ih2]
+
+theorem sumL_eq_sum (l : List Rat) : sumL l = l.sum := by
+  unfold sumL
+  have : ∀ (acc : Rat), l.foldl (· + ·) acc = acc + l.sum := by
+    induction l with
+    | nil => intro acc; simp
+    | cons x t ih => intro acc; rw [List.foldl_cons, ih, List.sum_cons]; ring
+  rw [this]; simp
+
+theorem sumNums_perm {ws ws' : List Num} (h : ws.Perm ws') : sumNums ws = sumNums ws' := by
+  unfold sumNums
+  rw [sumL_eq_sum, sumL_eq_sum]
+  exact (h.map _).sum_eq
+
+/-- the weighted accumulation over permuted (weight, input) pairs: visibly the same array -/
+theorem weightedAcc_perm {ws ws' : List Num} {xs xs' : List Arr} (hl : ws.length = xs.length) (hl' : ws'.length = xs'.length)
+    (h : (ws.zip xs).Perm (ws'.zip xs')) (n : Nat) (hn : ∀ x ∈ xs, x.cells.length = n) (hne : xs ≠ []) (hs : SameShape xs) (dt : DType) :
+    ArrR (weightedAcc ws xs dt) (weightedAcc ws' xs' dt) := by
+  have hsc : (List.zipWith scaleArr ws xs).Perm (List.zipWith scaleArr ws' xs') := by
+    rw [zipWith_eq_map_zip, zipWith_eq_map_zip]; exact h.map _
+  have hx : xs.Perm xs' := by
+    have := h.map Prod.snd
+    rwa [List.map_snd_zip (by omega), List.map_snd_zip (by omega)] at this
+  cases hz : List.zipWith scaleArr ws xs with
+  | nil =>
+    cases xs with
+    | nil => exact absurd rfl hne
+    | cons a as => cases ws with
+      | nil => simp at hl
+      | cons w wr => simp at hz
+  | cons a0 t0 =>
+    cases hz' : List.zipWith scaleArr ws' xs' with
+    | nil => rw [hz, hz'] at hsc; exact absurd (List.perm_nil.mp hsc) (by simp)
+    | cons a0' t0' =>
+      rw [hz, hz'] at hsc
+      rw [weightedAcc_as_fold ws xs dt hl a0 t0 hz, weightedAcc_as_fold ws' xs' dt hl' a0' t0' hz']
+      have hmem : ∀ y ∈ a0 :: t0, ∃ w x, x ∈ xs ∧ y = scaleArr w x := by
+        intro y hy
+        rw [← hz, zipWith_eq_map_zip, List.mem_map] at hy
+        obtain ⟨p, hp, rfl⟩ := hy
+        exact ⟨p.1, p.2, (List.of_mem_zip hp).2, rfl⟩
+      have hn0 : ∀ y ∈ a0 :: t0, y.cells.length = n := by
+        intro y hy
+        obtain ⟨w, x, hx', rfl⟩ := hmem y hy
+        simp [scaleArr, Arr.mapCells, hn x hx']
+      refine ⟨?_, ?_, foldArr_perm (· + ·) (fun a b => add_comm a b) (fun a b c => add_assoc a b c) dt hsc n hn0⟩
+      · rw [foldArr_dtype, foldArr_dtype]
+      · rw [naryFold_perm.C05_foldArr_shape, naryFold_perm.C05_foldArr_shape]
+        obtain ⟨w, x, hx1, e1⟩ := hmem a0 (List.mem_cons_self ..)
+        obtain ⟨w', x', hx2, e2⟩ := hmem a0' (hsc.mem_iff.mpr (List.mem_cons_self ..))
+        rw [e1, e2]
+        simp only [scaleArr, Arr.mapCells]
+        exact hs x hx1 x' hx2
+
+theorem perm_of_zip_perm {ws ws' : List Num} {xs xs' : List Arr} (hl : ws.length = xs.length) (hl' : ws'.length = xs'.length)
+    (h : (ws.zip xs).Perm (ws'.zip xs')) : ws.Perm ws' ∧ xs.Perm xs' := by
+  constructor
+  · have := h.map Prod.fst
+    rwa [List.map_fst_zip (by omega), List.map_fst_zip (by omega)] at this
+  · have := h.map Prod.snd
+    rwa [List.map_snd_zip (by omega), List.map_snd_zip (by omega)] at this
+
+/-- **WeightedSum is independent of the order of its inputs** (weights permuted alongside): the same error, or visibly equal results. -/
+theorem weightedSum_perm (sqrt : Rat → Rat) {ws ws' : List Num} {xs xs' : List Arr} (hl : ws.length = xs.length) (hl' : ws'.length = xs'.length)
+    (h : (ws.zip xs).Perm (ws'.zip xs')) (n : Nat) (hn : ∀ x ∈ xs, x.cells.length = n) :
+    ExceptR (exec sqrt (.weightedSum ws) xs) (exec sqrt (.weightedSum ws') xs') := by
+  obtain ⟨hw, hx⟩ := perm_of_zip_perm hl hl' h
+  simp only [exec]
+  have e1 : (ws.length != xs.length) = false := by simp [hl]
+  have e2 : (ws'.length != xs'.length) = false := by simp [hl']
+  simp only [e1, e2, Bool.false_eq_true, if_false]
+  rw [← validateShapes_perm .cmd hx, ← promoteAll_perm hx, ← numsAllInt_perm hw]
+  rcases validateShapes_cases .cmd xs with hv | hv | hv <;> rw [hv]
+  · have hne : xs ≠ [] := by intro e; subst e; simp [validateShapes, eMp] at hv
+    exact weightedAcc_perm hl hl' h n hn hne ((validateShapes_ok_iff .cmd xs hne).mp hv) _
+  · exact ExceptR.eMp _ _
+  · exact ExceptR.eMp _ _
+
+/-- **WeightedMean is independent of the order of its inputs** (weights permuted alongside). -/
+theorem weightedMean_perm (sqrt : Rat → Rat) {ws ws' : List Num} {xs xs' : List Arr} (hl : ws.length = xs.length) (hl' : ws'.length = xs'.length)
+    (h : (ws.zip xs).Perm (ws'.zip xs')) (n : Nat) (hn : ∀ x ∈ xs, x.cells.length = n) :
+    ExceptR (exec sqrt (.weightedMean ws) xs) (exec sqrt (.weightedMean ws') xs') := by
+  obtain ⟨hw, hx⟩ := perm_of_zip_perm hl hl' h
+  simp only [exec]
+  have e1 : (ws.length != xs.length) = false := by simp [hl]
+  have e2 : (ws'.length != xs'.length) = false := by simp [hl']
+  simp only [e1, e2, Bool.false_eq_true, if_false]
+  rw [← validateShapes_perm .cmd hx, ← sumNums_perm hw]
+  rcases validateShapes_cases .cmd xs with hv | hv | hv <;> rw [hv]
+  · have hne : xs ≠ [] := by intro e; subst e; simp [validateShapes, eMp] at hv
+    exact mapCells_R (fun _ _ => divSc_R _) (weightedAcc_perm hl hl' h n hn hne ((validateShapes_ok_iff .cmd xs hne).mp hv) _)
   · exact ExceptR.eMp _ _
   · exact ExceptR.eMp _ _
 
